@@ -3,5 +3,5 @@ ALL = {
     "C01": "matchprops", "C02": "matchprops", "C03": "matchprops", "C04": "matchprops",
     "C16": "c16",
     "C08": "parseprops", "C09": "parseprops", "C10": "parseprops",
-    "C05": "matchprops", "C07": "matchprops", "C11": "matchprops", "C12": "matchprops",
+    "C05": "matchprops", "C06": "matchprops", "C18": "matchprops", "C07": "matchprops", "C11": "matchprops", "C12": "matchprops",
 }
